@@ -26,7 +26,8 @@ func init() {
 		Explanation: "The matcher's truth table is value-level; decided are necessary conditions visible in its shape: " +
 			"(a) at every gather site of scanSubscribers all three collectors (client, shared, inline) are called with the same trie node; " +
 			"(b) every collector guards its insertion into the result with the '$'-topic exclusion for filters that start with a wildcard; " +
-			"(c) scanSubscribers descends through the literal level, '+' and '#' children, and consults the '#' child of every matched terminal node (parent-level match) without excluding nodes matched through '+'.",
+			"(c) scanSubscribers descends through the literal level, '+' and '#' children, and consults the '#' child of every matched terminal node (parent-level match) without excluding nodes matched through '+'; " +
+			"(e) every recursive descent passes depth d+1 together with a child of the current node, so root-only tests (d == 0) apply at the root only; (f) trim never unlinks a node that still holds a client, shared or inline subscription (tested per node on the upward walk, helper-aware).",
 		NotDecided: []string{"level splitting (isolateParticle), empty levels", "that nothing else is selected ('exactly')", "shared-filter offset of two levels ($share/<group>/)"},
 		Run:        runC01,
 	})
@@ -252,7 +253,8 @@ func init() {
 		Explanation: "(a) in scanMessages the root-level skip for wildcard filters is a '$'-prefix test of the child key, not an equality with one name; " +
 			"(b) every packet appended to the result comes from Retained.Get on its ok edge (a stale path never yields a message that is not in the store); " +
 			"(c) RetainMessage keeps the node's retainPath and the store in step (Add ↔ path set, Delete ↔ path cleared) for the same topic; publishRetainedToClient replays exactly Topics.Messages(filter); " +
-			"(d) on a trailing '#' the node's own retained message (the parent level) is consulted.",
+			"(d) on a trailing '#' the node's own retained message (the parent level) is consulted; " +
+			"(e) scanMessages' recursive descents pass depth d+1 with a child of the current node; (f) trim never unlinks a node that still carries a retained message (tested for every node on the upward walk, not only the first).",
 		NotDecided: []string{"the matcher's truth table beyond these shapes", "exactly-once over a history"},
 		Run:        runC02,
 	})
@@ -372,7 +374,8 @@ func init() {
 		Technique: "guard dominance on publishRetainedToClient / retainMessage / processSubscribe; who-may-write the retained store",
 		Explanation: "(a) the retained replay loop is reached only for non-shared filters and only when Retain Handling allows it (0 always, 1 only if the subscription did not exist, 2 never); processSubscribe passes `existed` computed from the same iteration's Topics.Subscribe result; " +
 			"retainMessage returns before touching the store when retain is unavailable or the packet is marked Ignore; " +
-			"(b) client-originated writes reach the retained store only through Server.retainMessage, which is called on the publish's Retain flag; RetainMessage overwrites or deletes the one key pk.TopicName (C02.c).",
+			"(b) client-originated writes reach the retained store only through Server.retainMessage, which is called on the publish's Retain flag; RetainMessage overwrites or deletes the one key pk.TopicName (C02.c); " +
+			"(e) trim never unlinks a node that still carries a retained message (wildcard subscriptions walk the trie).",
 		NotDecided: []string{"'most recent' under concurrent publishers", "delivery contents"},
 		Run:        runC05,
 	})
@@ -464,7 +467,8 @@ func init() {
 		Title:     "Each shared-subscription group receives each matching message exactly once",
 		Technique: "loop-shape rule on SelectShared (one insertion then unconditional break per group entry); path rule on publishToSubscribers; merge provenance",
 		Explanation: "(a) SelectShared's inner loop over a group's members performs exactly one insertion into SharedSelected and leaves the loop unconditionally; publishToSubscribers on the len(Shared) > 0 edge always reaches MergeSharedSelected, and SelectShared whenever the hook left SharedSelected empty; " +
-			"(b) MergeSharedSelected folds selections into Subscriptions (keyed by client id) through Merge, and delivery iterates only Subscriptions — one copy per client.",
+			"(b) MergeSharedSelected folds selections into Subscriptions (keyed by client id) through Merge, and delivery iterates only Subscriptions — one copy per client; " +
+			"(c) the gathered per-group candidate sets (Subscribers.Shared) are written only by the trie walk: no broker code removes candidates before the selection; (d) a cached size field of SharedSubscriptions may change only under a test of the map entry concerned; (e) trim never unlinks a node that still holds shared subscriptions.",
 		NotDecided: []string{"grouping is by full filter (subs.Shared[sub.Filter]) while the property speaks of the share name: two filters of one share name that both match yield two selections — a data-key issue not visible as code shape",
 			"which member is selected; counting copies on connections"},
 		Run: runC06,
@@ -796,8 +800,9 @@ func init() {
 		Title:     "The topic index stays consistent under any concurrent history",
 		Technique: "lock-flow (guarded-by the root lock) over every trie mutation; loop-condition completeness of trim; result-provenance of the existed reports",
 		Explanation: "(a) every mutation of the trie (particles.add/delete, subscriptions/shared/inline Add/Delete, stores to retainPath, calls of set/seek/trim) executes with the root particle's mutex held — directly, or in a helper whose every module caller holds it; " +
-			"(b) trim's loop condition tests all five emptiness terms (children, client, shared and inline subscriptions, retainPath) and stops at the root; " +
-			"(c) Subscribe/InlineSubscribe/Unsubscribe/InlineUnsubscribe compute their `existed` result from a lookup of the entry they add or delete.",
+			"(b) on every path to trim's unlink the node was tested for a parent, no retained message, no children and no client/shared/inline subscriptions (directly or inside a boolean helper of the module), and the tests are passed again for each ancestor the walk climbs to; the node is deleted from its parent by its own key; " +
+			"(c) Subscribe/InlineSubscribe/Unsubscribe/InlineUnsubscribe compute their `existed` result from a lookup of the entry they add or delete; " +
+			"(d) a cached counter kept beside a container's map changes only under a test of the entry concerned.",
 		NotDecided: []string{"linearizability of the lock-free readers against writers (schedule-level)", "torn reads of retainPath by lock-free readers (C33)"},
 		Run:        runC31,
 	})
